@@ -5,6 +5,7 @@ package main
 import (
 	"fmt"
 	"go/token"
+	"go/types"
 	"sort"
 	"strings"
 
@@ -47,6 +48,54 @@ func importFuncs(c *Ctx, rule string) (imp, alloc, cmks *ssa.Function) {
 	alloc = c.MustFn(rule, "poc/wallet/keystore", "(*KeystoreManagerForPoC).allocAddrMgrNamespace")
 	cmks = c.MustFn(rule, "poc/wallet/keystore", "createManagerKeyScope")
 	return
+}
+
+// importBody: the functions that make up the import of a keystore file — allocAddrMgrNamespace and
+// createManagerKeyScope plus every keystore function they hand the file (a value of a keystore-file
+// type) to, e.g. a shared decryption helper. Methods of the file types themselves are not included.
+func importBody(alloc, cmks *ssa.Function) []*ssa.Function {
+	var out []*ssa.Function
+	seen := map[*ssa.Function]bool{}
+	var walk func(f *ssa.Function, depth int)
+	walk = func(f *ssa.Function, depth int) {
+		if f == nil || seen[f] {
+			return
+		}
+		seen[f] = true
+		out = append(out, f)
+		if depth == 0 {
+			return
+		}
+		for _, g := range withClosures(f) {
+			allInstrs(g, func(in ssa.Instruction) {
+				cl, ok := in.(*ssa.Call)
+				if !ok {
+					return
+				}
+				h := cl.Call.StaticCallee()
+				if h == nil || pkgOf(h) != pkgKeystore || len(h.Blocks) == 0 || h.Signature.Recv() != nil && isFileType(h.Signature.Recv().Type()) {
+					return
+				}
+				for _, a := range cl.Call.Args {
+					if isFileType(a.Type()) {
+						walk(h, depth-1)
+						return
+					}
+				}
+			})
+		}
+	}
+	walk(alloc, 2)
+	walk(cmks, 2)
+	return out
+}
+
+func isFileType(t types.Type) bool {
+	if p, ok := t.(*types.Pointer); ok {
+		t = p.Elem()
+	}
+	n, _ := namedStruct(t)
+	return n != nil && keystoreFileTypes[typeFullName(n)]
 }
 
 // fileFieldLoads: loads of keystore-file fields in fn: "Type.Field" -> load values.
@@ -121,7 +170,10 @@ func c01Fields(c *Ctx) {
 	}
 	// consumed by import
 	consumed := map[string][]ssa.Value{}
-	for _, f := range []*ssa.Function{alloc, cmks} {
+	body := importBody(alloc, cmks)
+	inBody := map[*ssa.Function]bool{}
+	for _, f := range body {
+		inBody[f] = true
 		for k, v := range fileFieldLoads(f) {
 			consumed[k] = append(consumed[k], v...)
 		}
@@ -193,6 +245,27 @@ func c01Fields(c *Ctx) {
 			for _, ld := range consumed[field] {
 				if s.has(ld) {
 					return true
+				}
+			}
+			// the field may be read by a function of the import body whose result feeds the argument
+			for x := range s.vals {
+				hc, isC := x.(*ssa.Call)
+				if !isC {
+					continue
+				}
+				h := hc.Call.StaticCallee()
+				if h == nil || !inBody[h] || h == cl.Parent() {
+					continue
+				}
+				for _, ret := range returnsOf(h) {
+					for _, r := range ret.Results {
+						rs := backSlice(r)
+						for _, ld := range consumed[field] {
+							if rs.has(ld) {
+								return true
+							}
+						}
+					}
 				}
 			}
 		}
@@ -418,12 +491,21 @@ func c01Auth(c *Ctx) {
 		return
 	}
 	targets := callInstrs(callsIn(alloc, pkgKeystore+".putMasterKeyParams", pkgKeystore+".putCryptoKeys", pkgKeystore+".putMasterHDKeys", pkgKeystore+".createManagerKeyScope", pkgKeystore+".putRemark"))
-	um := firstCall(alloc, idUnmarshalMP)
-	if um == nil || len(targets) < 4 {
+	// the authenticating steps may be performed by a keystore function import calls (e.g. the shared
+	// decryption of the file's master HD key): then that function must fail when the step fails, and
+	// import is gated on the call of that function (summary.go, findSteps)
+	ums := findSteps(alloc, func(cl *ssa.Call) bool { return isCall(cl, idUnmarshalMP) }, 2)
+	if len(ums) == 0 || len(targets) < 4 {
 		c.Bad(rule, "allocAddrMgrNamespace:anchor", c.Pos(alloc.Pos()), "reason=anchor-missing: unmarshalMasterPrivKey / put calls")
 		return
 	}
-	gate := func(key string, call *ssa.Call, what string) {
+	um := ums[0]
+	gate := func(key string, loc stepLoc, what string) {
+		call := loc.Site
+		if ok, why := stepFailsVia(loc); !ok {
+			c.Bad(rule, key, c.Pos(loc.Step.Pos()), "a failure of "+what+" does not fail the function import relies on for it: "+why)
+			return
+		}
 		if len(errResults(call)) == 0 {
 			c.Bad(rule, key, c.Pos(call.Pos()), "the result of "+what+" is not tested")
 			return
@@ -434,17 +516,14 @@ func c01Auth(c *Ctx) {
 			c.Bad(rule, key, c.Pos(at.Pos()), "the imported keystore is stored although "+what+" failed: a wrong passphrase or a corrupted file is accepted")
 		}
 	}
-	if !backSlice(um.Call.Args[1]).hasParam(alloc, "oldPass") {
-		c.Bad(rule, "allocAddrMgrNamespace:digest-check", c.Pos(um.Pos()), "the file's master key is not derived from the caller's old passphrase")
+	if !sliceVia(um.Step.Call.Args[1], um).hasParam(alloc, "oldPass") {
+		c.Bad(rule, "allocAddrMgrNamespace:digest-check", c.Pos(um.Step.Pos()), "the file's master key is not derived from the caller's old passphrase")
 	} else {
 		gate("allocAddrMgrNamespace:digest-check", um, "unmarshalMasterPrivKey(oldPass, file parameters)")
 	}
-	var decs []*ssa.Call
-	allInstrs(alloc, func(in ssa.Instruction) {
-		if cl, ok := in.(*ssa.Call); ok && callName(cl) == "Decrypt" && strings.Contains(calleeID(cl), "/keystore") {
-			decs = append(decs, cl)
-		}
-	})
+	decs := findSteps(alloc, func(cl *ssa.Call) bool {
+		return callName(cl) == "Decrypt" && strings.Contains(calleeID(cl), "/keystore")
+	}, 2)
 	for i, d := range decs {
 		gate(fmt.Sprintf("allocAddrMgrNamespace:decrypt#%d", i+1), d, "secretbox Decrypt")
 	}
@@ -466,7 +545,7 @@ func c01Tamper(c *Ctx) {
 		v  ssa.Value
 	}
 	consumed := map[string][]use{}
-	for _, f := range []*ssa.Function{alloc, cmks} {
+	for _, f := range importBody(alloc, cmks) {
 		for k, vs := range fileFieldLoads(f) {
 			for _, v := range vs {
 				consumed[k] = append(consumed[k], use{f, v})
@@ -641,19 +720,16 @@ func c01Delete(c *Ctx) {
 	}
 	for _, st := range steps {
 		key := "DeleteKeystore:" + st.name
-		r := reach(cl0, cl0.Blocks[0].Instrs[0], nil, st.is)
+		// a step may sit in a helper the transaction body calls (summary.go): a call of a helper that
+		// performs the step on every path to its return counts as the step
+		r := reach(cl0, cl0.Blocks[0].Instrs[0], nil, liftMustOnSuccess(cl0, st.is))
 		bad := false
 		for _, ret := range returnsOf(cl0) {
 			if isNilErrorReturn(ret) && r(ret) {
 				bad = true
 			}
 		}
-		present := false
-		allInstrs(cl0, func(in ssa.Instruction) {
-			if st.is(in) {
-				present = true
-			}
-		})
+		present := mayDo(cl0, st.is)
 		switch {
 		case !present:
 			c.Bad(rule, key, c.Pos(cl0.Pos()), "the delete transaction no longer performs this step: remains of the keystore survive and a later import of the same keystore meets them")
